@@ -252,8 +252,135 @@ func refGet(b []byte, k kind) (val, int, refmodel.TLStatus) {
 }
 
 type c20 struct {
-	c    *mon.Ctx
-	tail []byte
+	c     *mon.Ctx
+	tail  []byte
+	dirty dirtyBuf
+	nvals int
+}
+
+// checkDirty encodes v into reused dirty buffers (Reset() and bin.Pool) and
+// requires the same bytes as the reference encoding.
+func (m *c20) checkDirty(class string, v val, want []byte) {
+	c := m.c
+	variants := []string{"reset"}
+	if len(want) <= 4096 {
+		variants = append(variants, "pool")
+	}
+	for _, variant := range variants {
+		var b *bin.Buffer
+		if variant == "reset" {
+			b = m.dirty.reset(len(want))
+		} else {
+			b = m.dirty.pooled(len(want))
+		}
+		c.Eval(1)
+		var perr error
+		pv, stack := mon.Try(func() { perr = realPut(b, v) })
+		if pv != nil || perr != nil {
+			c.Violate("encode|dirty-buffer-failed|"+v.k.String(), map[string]any{"class": class, "variant": variant, "value": v.witness(), "panic": fmt.Sprint(pv), "stack": stack, "err": fmt.Sprint(perr)})
+			return
+		}
+		if !bytes.Equal(b.Buf, want) {
+			c.Violate("encode|dirty-buffer-differs-from-reference|"+v.k.String(), map[string]any{"class": class, "variant": variant, "value": v.witness(),
+				"encoded_len": len(b.Buf), "encoded": hx(b.Buf), "reference_len": len(want), "reference": hx(want)})
+		}
+		c.Add("dirty_buffer_encodes", 1)
+	}
+}
+
+var prefixVariants = [...]string{"put", "uint16", "expand", "resetn", "resetto"}
+
+// checkPrefixed appends v to a buffer that already holds `prefix` bytes written
+// through `variant` (Put(raw) / PutUint16 / Expand / ResetN / ResetTo on an
+// unaligned sub-slice). The bytes THIS call appends must be the reference
+// encoding of the value alone (so 4-byte aligned whatever precedes it) and must
+// decode, starting at the value's first byte, to the same value with exact
+// consumption, also when another value follows.
+func (m *c20) checkPrefixed(class string, v val, want []byte, prefix int, variant string) {
+	c := m.c
+	if variant == "uint16" && prefix%2 != 0 {
+		variant = "put"
+	}
+	b := &bin.Buffer{}
+	switch variant {
+	case "put":
+		raw := make([]byte, prefix)
+		for i := range raw {
+			raw[i] = 0xC0 | byte(i+1)
+		}
+		b.Put(raw)
+	case "uint16":
+		for i := 0; i < prefix/2; i++ {
+			b.PutUint16(0xBEEF)
+		}
+	case "expand":
+		b.Expand(prefix)
+	case "resetn":
+		b.Buf = make([]byte, 0, 64)
+		b.ResetN(prefix)
+	case "resetto":
+		back := bytes.Repeat([]byte{0xEE}, prefix+3+len(want)+16)
+		b.ResetTo(back[3 : 3+prefix]) // unaligned sub-slice, spare capacity behind it
+	}
+	if b.Len() != prefix {
+		c.Inconclusive(fmt.Sprintf("prefix variant %s produced %d bytes, wanted %d", variant, b.Len(), prefix))
+		return
+	}
+	c.Eval(1)
+	var perr error
+	pv, stack := mon.Try(func() {
+		perr = realPut(b, v)
+		if perr == nil {
+			b.PutLong(0x1122334455667788) // a following value
+		}
+	})
+	w := func() map[string]any {
+		return map[string]any{"class": class, "value": v.witness(), "prefix_len": prefix, "prefix_via": variant,
+			"buffer": hx(b.Buf), "reference_len": len(want), "reference": hx(want)}
+	}
+	if pv != nil || perr != nil {
+		ww := w()
+		ww["panic"], ww["stack"], ww["err"] = fmt.Sprint(pv), stack, fmt.Sprint(perr)
+		c.Violate("encode|after-prefix-failed|"+v.k.String(), ww)
+		return
+	}
+	appended := len(b.Buf) - prefix - 8
+	switch {
+	case appended < 0 || appended%4 != 0:
+		ww := w()
+		ww["appended"] = appended
+		c.Violate("encode|after-unaligned-prefix-not-4-byte-aligned|"+v.k.String(), ww)
+		return
+	case !bytes.Equal(b.Buf[prefix:prefix+appended], want):
+		ww := w()
+		ww["appended"] = appended
+		c.Violate("encode|after-prefix-differs-from-reference|"+v.k.String(), ww)
+		return
+	}
+	rb := &bin.Buffer{Buf: b.Buf[prefix:]}
+	var got val
+	var err, lerr error
+	var next int64
+	if pv, stack := mon.Try(func() {
+		got, err = realGet(rb, v.k)
+		if err == nil {
+			next, lerr = rb.Long()
+		}
+	}); pv != nil {
+		ww := w()
+		ww["panic"], ww["stack"] = fmt.Sprint(pv), stack
+		c.Violate("panic|decode-after-prefix-"+v.k.String(), ww)
+		return
+	}
+	if err != nil || !got.eq(v) || lerr != nil || next != 0x1122334455667788 || rb.Len() != 0 {
+		ww := w()
+		ww["err"], ww["decoded"], ww["following_long"], ww["following_err"], ww["left"] = fmt.Sprint(err), got.witness(), fmt.Sprintf("%#x", next), fmt.Sprint(lerr), rb.Len()
+		c.Violate("decode|after-prefix-roundtrip-differs|"+v.k.String(), ww)
+	}
+	c.Add("prefixed_encodes", 1)
+	if prefix%4 != 0 {
+		c.Distinct(fmt.Sprintf("prefix/%s/%s/p%%4=%d/%s", v.k, variant, prefix%4, sizeClass(len(v.raw))))
+	}
 }
 
 // checkValue: encode with the real code, compare with the reference encoding,
@@ -284,6 +411,9 @@ func (m *c20) checkValue(class string, v val) {
 		ww["reference_len"], ww["reference"] = len(want), hx(want)
 		c.Violate("encoding-differs-from-reference|"+v.k.String(), ww)
 	}
+	m.checkDirty(class, v, want)
+	m.nvals++
+	m.checkPrefixed(class, v, want, 1+m.nvals%7, prefixVariants[m.nvals%len(prefixVariants)])
 	for pass := 0; pass < 2; pass++ {
 		in := enc[:len(enc):len(enc)] // decoding only reslices, it never writes
 		if pass == 1 {
@@ -362,6 +492,20 @@ func (m *c20) checkTuple(vals []val, prefix []byte) {
 		w["reference"] = hx(want)
 		c.Violate("tuple-encoding-differs-from-reference", w)
 		return
+	}
+	// the same tuple into a reused dirty buffer (no prefix)
+	{
+		db := m.dirty.reset(len(want))
+		if pv, _ := mon.Try(func() {
+			for _, v := range vals {
+				_ = realPut(db, v)
+			}
+		}); pv != nil || !bytes.Equal(db.Buf, want[len(prefix):]) {
+			w := desc()
+			w["panic"], w["dirty_encoded"], w["reference"] = fmt.Sprint(pv), hx(db.Buf), hx(want[len(prefix):])
+			c.Violate("encode|dirty-buffer-differs-from-reference|tuple", w)
+		}
+		c.Add("dirty_buffer_encodes", 1)
 	}
 	rb := &bin.Buffer{Buf: append([]byte(nil), b.Buf[len(prefix):]...)}
 	total := rb.Len()
@@ -647,7 +791,9 @@ func randTupleVal(r *rand.Rand) val {
 func runC20(c *mon.Ctx) {
 	c.Rule("Values: string and bytes of EVERY length 0..1030 x 5 contents (random incl. invalid UTF-8, zeros, 0xFF, 0xFE, multi-byte UTF-8) and lengths 2^k-1, 2^k, 2^k+1 up to 2^24-1; " +
 		"int/int32/uint32/id/fields/long/int53/uint64/double (NaN payloads, subnormals, compared by bits)/bool/int128/int256 (methods and Encoder objects)/vector headers from boundary+random pools. " +
-		"Each value: real Put* vs reference encoding (spec transcription), length%4, real decode exact and with a 12-byte sentinel tail (must stay untouched). " +
+		"Each value: real Put* vs reference encoding (spec transcription), length%4, real decode exact and with a 12-byte sentinel tail (must stay untouched); " +
+		"every value is ALSO appended after a prefix of 1..7 bytes (0..7 x every length 0..1030 for string/bytes) written via Put(raw)/PutUint16/Expand/ResetN/ResetTo(unaligned sub-slice): the appended bytes must equal the reference encoding of the value alone and decode from the value's first byte with exact consumption and an intact following long; " +
+		"every value and tuple is ALSO encoded into reused dirty buffers (backing array pre-filled with non-zero bytes, Reset(), spare capacity; and bin.Pool Get after a dirty Put) and must give the same bytes as the reference. " +
 		"Tuples: 1..12 random primitives back to back after an aligned prefix, reference concatenation, decoded in order, per-value consumption, empty at end. " +
 		"Hostile: every truncation of valid encodings, first byte 254 with short tails / lengths beyond the buffer, first byte 255, non-zero padding, wrong/negative vector headers, unknown Bool ids, random bytes; " +
 		"each input decoded as EVERY primitive kind under panic capture, outcome compared with the reference classification (ok / short / malformed must agree; non-canonical may go either way). " +
@@ -661,7 +807,15 @@ func runC20(c *mon.Ctx) {
 	for l := 0; l <= 1030; l++ {
 		for mode := 0; mode < 5; mode++ {
 			for _, k := range []kind{kString, kBytes} {
-				m.checkValue(fillName[mode], val{k: k, raw: fill(r, l, mode)})
+				v := val{k: k, raw: fill(r, l, mode)}
+				m.checkValue(fillName[mode], v)
+				if mode == 0 || mode == 3 {
+					want := refPut(nil, v)
+					for p := 0; p <= 7; p++ {
+						m.checkPrefixed(fillName[mode], v, want, p, "put")
+						m.checkPrefixed(fillName[mode], v, want, p, prefixVariants[1+(l+p)%4])
+					}
+				}
 			}
 		}
 	}
@@ -854,6 +1008,10 @@ func runC20(c *mon.Ctx) {
 		}
 	}
 	c.Set("hostile_inputs", hostile)
+	c.Set("dirty_pool_reuse", fmt.Sprintf("%d of %d bin.Pool Get calls returned the dirty buffer just Put", m.dirty.PoolReused, m.dirty.PoolGets))
+	if m.dirty.PoolReused == 0 {
+		c.Inconclusive("bin.Pool never handed back the dirty buffer: pooled-reuse arm not observed")
+	}
 	c.Set("kinds_decoded_per_hostile_input", int(numKinds))
 	if hostile == 0 || c.DistinctCount() < 50 {
 		c.Inconclusive("too few cases observed")
